@@ -3,7 +3,7 @@ C15 — the file system stays structurally consistent under any operation sequen
 Property theorems; the model is `Model/FileSystem.lean`, the invariant `Inv`/`FolderInv` and the per-operation
 preservation lemmas are in `Lemmas/FileSystem{Basics,Folder,State,Ops}.lean`.
 -/
-import PrimaiteModel.Lemmas.FileSystemAnswers
+import PrimaiteModel.Lemmas.FileSystemDescribe
 import PrimaiteModel.Lemmas.FileSystemSnapshot
 import PrimaiteModel.Gen.FileSystem
 namespace Primaite.FileSystem
@@ -129,6 +129,63 @@ theorem C15_routes_lead_to_live {s : State} (h : Inv s) :
     | some f0 =>
       have hid : f0.id = f.id := by simpa using List.find?_some hfind
       rw [file_eq_of_id gi hf (List.mem_of_find?_eq_some hfind) hid]
+
+/-! ### the reported state -/
+
+/-- `describe_state()` lists exactly the live and the deleted items: one entry per live folder, in dictionary order, each
+carrying that folder's own description, whose `files` dict has one entry per live file carrying that file's uuid
+(no two live items collapse onto one key); the keys of `deleted_folders` / `deleted_files` are exactly the names of the
+deleted items and every entry there describes a deleted item of that name (deleted namesakes share one key — a name is
+all a dict keyed by name can list); the counters are reported as they are. -/
+theorem C15_describe_exact {s : State} (h : Inv s) :
+    (describe s).folders = s.folders.map (fun g => (g.name, g.describe)) ∧
+    (∀ n, n ∈ (describe s).deletedFolders.map (·.1) ↔ ∃ g ∈ s.deletedFolders, g.name = n) ∧
+    (∀ p ∈ (describe s).deletedFolders, ∃ g ∈ s.deletedFolders, p = (g.name, g.describe)) ∧
+    (∀ g, g ∈ s.folders ∨ g ∈ s.deletedFolders →
+      g.describe.files = g.files.map (fun f => (f.name, f.id)) ∧
+      (∀ n, n ∈ g.describe.deletedFiles.map (·.1) ↔ ∃ f ∈ g.deletedFiles, f.name = n) ∧
+      (∀ p ∈ g.describe.deletedFiles, ∃ f ∈ g.deletedFiles, p = (f.name, f.id))) ∧
+    (describe s).numCreations = s.numCreations ∧ (describe s).numDeletions = s.numDeletions := by
+  have hu := C15_live_names_unique h
+  refine ⟨?_, ?_, ?_, ?_, rfl, rfl⟩
+  · unfold describe
+    simp only
+    apply pyDict_of_nodup
+    rw [List.map_map]
+    exact hu.1
+  · intro n
+    unfold describe
+    simp only
+    rw [pyDict_keys_mem, List.map_map]
+    simp [List.mem_map]
+  · intro p hp
+    unfold describe at hp
+    simp only at hp
+    obtain ⟨g, hg, rfl⟩ := List.mem_map.mp (pyDict_mem _ p hp)
+    exact ⟨g, hg, rfl⟩
+  · intro g hg
+    refine ⟨?_, ?_, ?_⟩
+    · unfold Folder.describe
+      simp only
+      apply pyDict_of_nodup
+      rw [List.map_map]
+      exact hu.2 g hg
+    · intro n
+      unfold Folder.describe
+      simp only
+      rw [pyDict_keys_mem, List.map_map]
+      simp [List.mem_map]
+    · intro p hp
+      unfold Folder.describe at hp
+      simp only at hp
+      obtain ⟨f, hf, rfl⟩ := List.mem_map.mp (pyDict_mem _ p hp)
+      exact ⟨f, hf, rfl⟩
+
+/-- Without the invariant the report does collapse: two live files of one name (the state F-25 produced) are listed as
+one — so `C15_describe_exact` genuinely needs `Inv`. -/
+example :
+    let g : Folder := { id := 1, name := "fa", files := [{ id := 2, name := "a" }, { id := 3, name := "a" }] }
+    g.describe.files = [("a", 3)] := by decide
 
 /-! ### the per-tick counters -/
 
